@@ -732,6 +732,12 @@ func judgeFailure(w *World, cfg *WConfig, netc *WNet, nExplicit int, res *KResul
 		case errors.As(err, &sr):
 			res.Fail("stateless reset although no endpoint lost its state", "side %d", side)
 		case errors.As(err, &vn):
+			// a long-header packet whose version field was corrupted to zero on the way IS a Version Negotiation packet for
+			// the receiver (they are not authenticated): then the error is the network's
+			if wVersionFieldCorrupted(w, side) {
+				res.Probe("version-field-corrupted-into-a-version-negotiation-packet")
+				continue
+			}
 			res.Fail("version negotiation failed between compatible endpoints", "side %d: %v", side, err)
 		case errors.Is(err, context.DeadlineExceeded) || errors.Is(err, context.Canceled):
 			// horizon reached during Dial/Accept
@@ -778,6 +784,27 @@ func wEffectiveIdle(w *World, cfg *WConfig) time.Duration {
 		}
 	}
 	return time.Duration(min(client, nzIdle(cfg.IdleMS[1]))) * time.Millisecond
+}
+
+// wVersionFieldCorrupted: was a datagram delivered to `side` in which a corruption fault hit the version field (bytes 1-4) of a
+// long-header packet?
+func wVersionFieldCorrupted(w *World, side int) bool {
+	for _, rec := range w.Log[1-side] {
+		if !rec.Damaged || len(rec.Delivered) == 0 {
+			continue
+		}
+		for _, f := range rec.Faults {
+			if f.Kind != "corrupt" {
+				continue
+			}
+			for _, p := range rec.Pkts {
+				if p.Type != Tap1RTT && int(f.A) >= p.Off+1 && int(f.A) <= p.Off+4 {
+					return true
+				}
+			}
+		}
+	}
+	return false
 }
 
 func nzIdle(ms int64) int64 {
